@@ -210,3 +210,154 @@ Definition yinit : bst :=
   mkB false (match n with O => CSDone | _ => CSGate O end) O OIdle [] [] KIdle [] RIdle [] O false EpNone.
 
 End Down.
+
+(* ---------- (d') download, data phase: the same composition built from the reader machine ---------- *)
+
+Record dstate := mkD {
+  dD : rstate nat;        (* our data reader: its core carries OUR pause flags, its queue is the server->client wire *)
+  dDeliv : list nat;
+  dK : kph;
+  dKq : list nat;
+  dPS : csph;
+  dPcnt : nat;
+  dPA : rstate wline;     (* the peer's ack reader; its queue is the client->server wire *)
+  dPacked : nat;
+  dErrD : bool;           (* our data reader returned an error *)
+  dErrPA : bool;          (* the peer's ack reader returned an error *)
+  dEp : epi }.
+
+Section DownConc.
+Variable cf : cfg.
+Variable n : nat.
+Variable W : nat.
+Variable P : nat.
+
+Definition d_setD (s : dstate) (a : rstate nat) (dl kq : list nat) (err : bool) : dstate :=
+  mkD a dl (dK s) kq (dPS s) (dPcnt s) (dPA s) (dPacked s) err (dErrPA s) (dEp s).
+Definition d_setPA (s : dstate) (r : rstate wline) (acked : nat) (err : bool) : dstate :=
+  mkD (dD s) (dDeliv s) (dK s) (dKq s) (dPS s) (dPcnt s) r acked (dErrD s) err (dEp s).
+Definition d_setK (s : dstate) (p : kph) (q : list nat) : dstate :=
+  mkD (dD s) (dDeliv s) p q (dPS s) (dPcnt s) (dPA s) (dPacked s) (dErrD s) (dErrPA s) (dEp s).
+Definition d_setPS (s : dstate) (p : csph) (c : nat) : dstate :=
+  mkD (dD s) (dDeliv s) (dK s) (dKq s) p c (dPA s) (dPacked s) (dErrD s) (dErrPA s) (dEp s).
+Definition d_setEp (s : dstate) (e : epi) : dstate :=
+  mkD (dD s) (dDeliv s) (dK s) (dKq s) (dPS s) (dPcnt s) (dPA s) (dPacked s) (dErrD s) (dErrPA s) e.
+
+(* an event for our data reader; a returned frame goes to the decoder and its length to our ackChan *)
+Definition feedD (s : dstate) (e : ev nat) : dstate :=
+  let '(a, o) := rstep nat cls_a cf (dD s) e in
+  match o with
+  | None => d_setD s a (dDeliv s) (dKq s) (dErrD s)
+  | Some (ODelivered k _) => d_setD s a (dDeliv s ++ [k]) (dKq s ++ [k]) (dErrD s)
+  | Some _ => d_setD s a (dDeliv s) (dKq s) true
+  end.
+
+(* an event for the peer's ack reader *)
+Definition feedPA (s : dstate) (e : ev wline) : dstate :=
+  let '(r, o) := rstep wline cls_w cf (dPA s) e in
+  match o with
+  | None => d_setPA s r (dPacked s) (dErrPA s)
+  | Some (ODelivered _ _) => d_setPA s r (S (dPacked s)) (dErrPA s)
+  | Some _ => d_setPA s r (dPacked s) true
+  end.
+
+(* what our acker wrote reaches the peer *)
+Fixpoint d_emit (s : dstate) (k : nat) (ws : list wout) : dstate :=
+  match ws with
+  | [] => s
+  | WKeep :: ws' => d_emit (feedPA s (EArrive WLKeep)) k ws'
+  | WFrame :: ws' => d_emit (feedPA s (EArrive (WLData k))) k ws'
+  | WStopErr :: ws' => d_emit s k ws'
+  end.
+
+Definition d_pausing (s : dstate) : bool := pausing (core (dD s)).
+Definition d_stopped (s : dstate) : bool := stopped (core (dD s)).
+
+(* our acker, holding the acknowledgement of frame k, moves by gate event e *)
+Definition k_move (s : dstate) (k : nat) (p : sphase) (e : sev) : dstate :=
+  let '(p', ws) := sphase_step cf (d_pausing s) (d_stopped s) p e in
+  let s1 := d_emit s k ws in
+  match p', e with
+  | SIdle, SWrite => d_setK s1 KIdle (dKq s1)
+  | _, _ => d_setK s1 (KIn k p') (dKq s1)
+  end.
+
+Definition d_live (s : dstate) : bool := (length (dDeliv s) <? n)%nat.
+
+Definition d_quiescent (s : dstate) : bool :=
+  match dPS s with
+  | CSPush _ => (W <=? dPcnt s)%nat
+  | CSDone => true
+  | _ => false
+  end
+  && negb (match ph (dPA s) with PIdle => (0 <? dPcnt s)%nat | _ => false end)
+  && negb (match ph (dD s) with PIdle => d_live s | _ => false end)
+  && match dK s with
+     | KIdle => match dKq s with [] => true | _ => false end
+     | KIn _ (SSleep _) => true
+     | _ => false
+     end.
+
+Definition ydstep (s : dstate) (x : yev) : option dstate :=
+  match x with
+  | YPSCall => match dPS s with CSGate k => Some (d_setPS s (CSIn k SPassed) (dPcnt s)) | _ => None end
+  | YPSWrite => match dPS s with CSIn k SPassed => Some (feedD (d_setPS s (CSPush k) (dPcnt s)) (EArrive k)) | _ => None end
+  | YPSPush =>
+    match dPS s with
+    | CSPush k =>
+      if (dPcnt s <? W)%nat
+      then Some (d_setPS s (if (S k <? n)%nat then CSGate (S k) else CSDone) (S (dPcnt s)))
+      else None
+    | _ => None
+    end
+  | YPATake =>
+    match ph (dPA s), dPcnt s with
+    | PIdle, S c => Some (feedPA (d_setPS s (dPS s) c) ECall)
+    | _, _ => None
+    end
+  | YDCall => match ph (dD s) with PIdle => if d_live s then Some (feedD s ECall) else None | _ => None end
+  | YKTake =>
+    match dK s, dKq s with
+    | KIdle, k :: q => Some (d_setK s (KHave k) q)
+    | _, _ => None
+    end
+  | YKCall => match dK s with KHave k => Some (k_move s k SIdle SCall) | _ => None end
+  | YKWrite => match dK s with KIn k SPassed => Some (k_move s k SPassed SWrite) | _ => None end
+  | YPause =>
+    match dEp s with
+    | EpResumed _ _ => None
+    | _ => Some (d_setEp (feedD s EPause) (ep_pause (dEp s)))
+    end
+  | YResume =>
+    match dEp s with
+    | EpPausing e => if d_pausing s then Some (d_setEp (feedD s EResume) (EpResumed e O)) else None
+    | _ => None
+    end
+  | YTick =>
+    if d_quiescent s && (match dEp s with EpPausing e => (e <? P)%nat | _ => true end) then
+      let s1 := feedD (feedPA s ETick) ETick in
+      let s2 := match dK s1 with KIn k (SSleep j) => k_move s1 k (SSleep j) STick | _ => s1 end in
+      Some (d_setEp s2 (ep_tick cf (dEp s)))
+    else None
+  end.
+
+Fixpoint ydrun (s : dstate) (xs : list yev) : option dstate :=
+  match xs with
+  | [] => Some s
+  | x :: xs' => match ydstep s x with Some s' => ydrun s' xs' | None => None end
+  end.
+
+Definition ydinit : dstate :=
+  mkD (rinit nat) [] KIdle [] (match n with O => CSDone | _ => CSGate O end) O (rinit wline) O false false EpNone.
+
+Definition tmo_val (c : rcore) : nat := match tmo c with Some t => t | None => O end.
+
+(* the abstraction of a concrete state *)
+Definition yabs (s : dstate) : bst :=
+  mkB (pausing (core (dD s))) (dPS s) (dPcnt s)
+      (match ph (dD s) with PIdle => OIdle | PGate _ j => OGate j | PRead _ => ORead (tmo_val (core (dD s))) end)
+      (queue (dD s)) (dDeliv s) (dK s) (dKq s)
+      (match ph (dPA s) with PRead _ => RRead (tmo_val (core (dPA s))) | _ => RIdle end)
+      (queue (dPA s)) (dPacked s) (dErrD s || dErrPA s) (dEp s).
+
+End DownConc.
